@@ -444,7 +444,17 @@ func rule156(r *core.Run) {
 				c := dm[0].(*ssa.Call)
 				s := r.P.SliceOf(c.Call.Args[1], core.SliceOpts{Depth: -1})
 				okd = s.Has("call:s3afero.(*metaStore).metaPath") && s.HasValue(paramNamed(del, "objectName")) && s.HasValue(paramNamed(del, "bucketName"))
+				// a success before the object file was removed (the path is a directory, not a key) removed nothing
+				var rm ssa.Instruction
+				for _, rc := range r.P.CallsIn(del, false, core.NameIs("invoke:github.com/spf13/afero.Fs.Remove")) {
+					if rm == nil {
+						rm = rc.(ssa.Instruction)
+					}
+				}
 				for ret, ev := range returnedErrors(del) {
+					if rm != nil && !core.Reaches(rm, ret) {
+						continue
+					}
 					if definitelyNil(r, ev) && !core.CheckedBefore(c, ret) {
 						okd = false
 					}
